@@ -2,7 +2,7 @@
 # every other property id must have a reason in NA.
 
 ENGINES = [
-    {"name": "E2-sched", "path": "mc/sched.py", "serves_properties": ["C02", "C05"],
+    {"name": "E2-sched", "path": "mc/sched.py", "serves_properties": ["C02", "C05", "C10"],
      "kind_free_text": "stateless preemption-bounded exploration of the real joblib thread-pool tasks under a baton "
                        "scheduler (sys.settrace scheduling points), one pool invocation at a time"},
     {"name": "E4-itersets", "path": "mc/itersets.py", "serves_properties": ["C16"],
@@ -11,7 +11,7 @@ ENGINES = [
     {"name": "E3-faults", "path": "mc/faults.py", "serves_properties": ["C09"],
      "kind_free_text": "fault injector over the file-mutating calls (to_csv, to_parquet, ParquetWriter, unlink, move, "
                        "open) + explicit-state BFS over canonical directory states"},
-    {"name": "E1-enum", "path": "mc/core.py", "serves_properties": ["C01", "C02", "C03", "C05", "C07", "C08", "C11", "C12", "C13", "C14", "C17", "C18", "C19", "C20"],
+    {"name": "E1-enum", "path": "mc/core.py", "serves_properties": ["C01", "C02", "C03", "C05", "C06", "C07", "C08", "C10", "C11", "C12", "C13", "C14", "C17", "C18", "C19", "C20"],
      "kind_free_text": "bounded exhaustive enumeration of inputs/configurations/operation sequences on the real code "
                        "with reference-model or differential oracle; 16 forked workers"},
 ]
@@ -229,6 +229,34 @@ CHECKS.update({
              "seed, and the scores must be reproduced exactly when the returned models are fed back in any order.",
         note="Hash seeds are enumerated over 0..7 (0..3 quick), not all 2^32; one 128-PSM dataset with anagram peptides "
              "(so that random decoy matching has a choice)."),
+})
+
+CHECKS.update({
+    "C06": dict(
+        level="exploration", engine="E1-enum", design="DESIGN.md 4/C06",
+        technique="exhaustive enumeration of a deterministic grid of score sets (81 mixtures from quantile grids) x input "
+                  "orders (12/50 block permutations) x all PEP and q-value algorithms; metamorphic alignment relation "
+                  "f(x.pi) = f(x).pi plus range / monotonicity / tie clauses; end to end through assign_confidence",
+        text="Every selectable PEP estimator (qvality, kde_nnls, hist_nnls) and q-value estimator (tdc, from_peps, "
+             "from_counts) is run on every score set of the grid in every enumerated input order: one finite value "
+             "per PSM, PEPs in [0,1], never decreasing as the score worsens, equal on ties, and the i-th value belongs "
+             "to the i-th PSM (permutation metamorphic relation); result files of assign_confidence must carry, for "
+             "every row, the stand-alone PEP of that row's score.",
+        note="Score sets are deterministic quantile grids (no sampling); from_counts is order dependent among mixed-label "
+             "ties, so its alignment relation is demanded only on sets without such ties; inf is accepted for "
+             "from_counts (outside the statement)."),
+    "C10": dict(
+        level="exploration", engine="E1-enum + E2-sched", design="DESIGN.md 4/C10",
+        technique="exhaustive enumeration of feature counts 1..60 x identifier sets x column-scan chunk sizes x formats, "
+                  "deviation-bounded enumeration (<=2 quick / <=3 thorough over 14 axes) of column order, casing, "
+                  "optional columns, label encodings, NaN placement, row counts, scan chunks, workers; negatives; "
+                  "baton-scheduler exploration of the read_percolator pool",
+        text="read_pin / read_percolator is run on generated text and Parquet tables and compared with the generator's "
+             "record: one spectra row per input row in file order, targets exactly the rows labelled 1/true, spectrum "
+             "key made of the available file/scan/time/mass columns, features exactly the non-reserved columns without "
+             "missing values, nothing dropped; missing required columns and out-of-range labels must be rejected with "
+             "an error; every schedule of the column-scan pool within the preemption bound equals the sequential run.",
+        note="A Charge column may stay a feature (find_optional_column looks for 'charge_column'); accepted either way."),
 })
 
 NA = {
